@@ -461,21 +461,23 @@ Definition finish_transfer (acc : list reply) : prog :=
     if cancelled then process_abort acc (fun acc' => DDisconnect false (Ret (RvReplies acc')))
     else DDisconnect true (Recv (fun r => Ret (RvReplies (acc ++ [r]))))).
 
+(* the command line is built (and its argument checked) before anything is sent *)
 Definition op_download (path : bytes) : prog :=
-  Scope (create_data_connection RETR_ (Some path) []
+  CheckArg path (Scope (create_data_connection RETR_ (Some path) []
            (fun acc => PumpIn (fun _ => finish_transfer acc))
-           (fun acc => Ret (RvReplies acc))).
+           (fun acc => Ret (RvReplies acc)))).
 
 Definition op_upload (verb : bytes) (path : bytes) : prog :=
-  Scope (create_data_connection verb (Some path) []
+  CheckArg path (Scope (create_data_connection verb (Some path) []
            (fun acc => PumpOut (fun _ => finish_transfer acc))
-           (fun acc => Ret (RvReplies acc))).
+           (fun acc => Ret (RvReplies acc)))).
 
 Definition op_list (path : option bytes) (names : bool) : prog :=
-  Scope (create_data_connection (if names then NLST_ else LIST_) path []
+  CheckArg (match path with Some p => p | None => [] end)
+  (Scope (create_data_connection (if names then NLST_ else LIST_) path []
            (fun acc => PumpInList (fun txt => Notify (OFileList txt)
                          (DDisconnect true (Recv (fun r => Ret (RvList (acc ++ [r]) txt))))))
-           (fun acc => Ret (RvList acc []))).
+           (fun acc => Ret (RvList acc [])))).
 
 (* ------------------------------------------------------------------ the API *)
 Inductive upverb := UStor | UStou | UAppe.
